@@ -145,7 +145,7 @@ pub fn check_numeral(t: &str, st: &mut Stats) {
 
 pub fn numerals(tier: Tier) -> Vec<String> {
     let mut v: Vec<String> = Vec::new();
-    let maxint = tier.pick(2000i64, 10000);
+    let maxint = tier.pick(10000i64, 100000);
     for i in 0..maxint {
         v.push(i.to_string());
         if i > 0 {
@@ -166,7 +166,7 @@ pub fn numerals(tier: Tier) -> Vec<String> {
     let digs = ['0', '1', '4', '5', '9'];
     let mut exps: Vec<i32> = (-25..=25).collect();
     exps.extend_from_slice(&[-308, -320, -324, -330, 308, 300, -300]);
-    let nd = tier.pick(3, 4);
+    let nd = tier.pick(4, 5);
     let mut mants: Vec<String> = Vec::new();
     fn rec(cur: &mut String, left: usize, digs: &[char], out: &mut Vec<String>) {
         if !cur.is_empty() {
@@ -356,7 +356,7 @@ pub fn run(tier: Tier) -> i32 {
         }
     });
     st.count("numerals", nums.len() as u64);
-    let k = tier.pick(3, 4);
+    let k = tier.pick(4, 5);
     let mut s0 = Stats::default();
     char_dfs(STR_CHARS, "", 0, 1, &mut s0, &mut |s, st| check_string(s, st));
     st = st.merge(s0);
